@@ -50,15 +50,16 @@ Call(c, peer) ==
     LET fx == FeExpect(fe, c.op, c.cls, c.v)
         h2 == Append(hist, [op |-> c.op, cls |-> c.cls, v |-> c.v, rv |-> c.rv, peer |-> peer])
     IN /\ Len(hist) < MaxDepth
-       /\ peer # "auto" => \/ fx.await = "reply" /\ peer \in ReplyMutations(c.op)
-                           \/ fx.await = "ack" /\ peer \in AckMutations
+       /\ (peer \notin {"auto", "gone"} => ((fx.await = "reply" /\ peer \in ReplyMutations(c.op)) \/ (fx.await = "ack" /\ peer \in AckMutations)))
+       \* "gone": the peer has shut the connection down before the call is made (the request cannot be sent)
+       /\ (peer = "gone" => fx.act = "send")
        /\ IF peer = "auto"
           THEN fe' = FeNext(fe, c.op, c.cls, c.v, VF_PROTOCOL_FEATURES \in c.rv, TRUE)
           ELSE fe' = fe    \* the connection is over after a deviating reply
        /\ hist' = h2
        /\ Emit(h2, fx)
 
-Next == (\E c \in Calls, p \in {"auto"} \cup HeaderMutations \cup {"fds-1", "body_invalid", "config_offset", "nack"} : Call(c, p))
+Next == (\E c \in Calls, p \in {"auto", "gone"} \cup HeaderMutations \cup {"fds-1", "body_invalid", "config_offset", "nack", "nack_hi"} : Call(c, p))
         \/ (\E nr \in BOOLEAN : SetFlags(nr))
 Spec == Init /\ [][Next]_vars
 
